@@ -574,7 +574,25 @@ def gen_e2e_case(rng, mode=None):
                     build_res += sorted({r for r, _ in types[name]["residues"]})
             cut = rng.randint(last_ign + 1, len(flat)) if rng.random() < 0.3 else len(flat)
             given = [(r[3] not in build_res) and i < cut for i, r in enumerate(flat)]
-    return dict(types=types, listing=listing, mode=mode, given=given, centres_given=centres_given,
+    # -split together with supplied coordinates: one residue name (every residue of that name has the same
+    # >= 2 atoms, and it is not rebuilt by name) is split into two new residues; the atoms, their order and the
+    # supplied coordinates are what they were, so the oracle below applies unchanged (-c modes only: with -mc
+    # the number of centres would change)
+    split = []
+    if mode in ("c-prefix", "res", "ign") and rng.random() < 0.3:
+        sizes = {}
+        for t in types.values():
+            for resname, natoms in t["residues"]:
+                sizes.setdefault(resname, set()).add(natoms)
+        cands = sorted(n for n, v in sizes.items() if len(v) == 1 and min(v) >= 2 and n not in build_res
+                       and len(n) <= 4)
+        if cands:
+            name = rng.choice(cands)
+            natoms = min(sizes[name])
+            k = rng.randint(1, natoms - 1)
+            split = ["%s:%sa-%s:%sb-%s" % (name, name, ",".join("A%d" % a for a in range(k)),
+                                           name, ",".join("A%d" % a for a in range(k, natoms)))]
+    return dict(types=types, listing=listing, mode=mode, given=given, centres_given=centres_given, split=split,
                 fmt=rng.choice(FORMATS), fmt_meta=rng.choice(FORMATS),
                 build_res=sorted(set(build_res)), ignore=ignore,
                 fail_attempts=rng.choice([0, 0, 1, 2, 3]), fail_steps=rng.choice([0, 0, 0, 2, 5]),
@@ -656,6 +674,8 @@ def run_e2e(case, tmpdir):
     try:
         kwargs = dict(toppath=top_path, outpath=out_path, name="verif", build_res=list(case["build_res"]),
                       ignore=list(case["ignore"]), nrewind=case["nrewind"])
+        if case.get("split"):
+            kwargs["split"] = list(case["split"])
         if meta_path is not None:
             kwargs["coordpath"] = in_path
             kwargs["coordpath_meta"] = meta_path
@@ -700,7 +720,7 @@ def judge_e2e(ctx, case, result, ans, residues):
         return
     spec = ans["spec"]                      # per residue: what the property says it receives
     flat = flat_residues(case["types"], case["listing"])
-    what = dict(listing=case["listing"], mode=case["mode"], fmt=case.get("fmt", "gro"),
+    what = dict(listing=case["listing"], mode=case["mode"], fmt=case.get("fmt", "gro"), split=case.get("split", []),
                 resnames=sorted({r[0] for t in case["types"].values() for r in t["residues"]}),
                 build_res=case["build_res"], ignore=case["ignore"],
                 forced=result["forced"], given="".join("1" if g else "0" for g in case["given"]))
@@ -759,7 +779,7 @@ def judge_e2e(ctx, case, result, ans, residues):
                     ctx.tally(e2e_ignored_without_coordinates=True)
     key = json.dumps(case, sort_keys=True) if (n_given and n_gen) else None
     ctx.case(key, sample=dict(stream="e2e", **what, result=result["error"] or "ok"),
-             stream="e2e", mode=case["mode"], input_format=case.get("fmt", "gro"),
+             stream="e2e", mode=case["mode"], input_format=case.get("fmt", "gro"), opt_split=bool(case.get("split")),
              special_resnames=any(r[0] in SPECIAL_NAMES for t in case["types"].values() for r in t["residues"]),
              forced_attempts=result["forced"]["attempts"],
              forced_steps=_b(result["forced"]["steps"]), split="mixed" if (n_given and n_gen) else "all-given" if n_given else "none-given")
